@@ -60,3 +60,173 @@ class NextWid(object):
         else:
             bad.add('noescape')
         return bad
+
+
+# ---------------------------------------------------------------------------- kill_process (C03)
+class FakeKernel(object):
+    def __init__(self):
+        self.now = 0.0
+        self.signals = []      # (pid, signum, time, how)
+
+
+class FakeProcess(object):
+    """double for circus.process.Process at the psutil boundary, driven by a virtual clock"""
+
+    def __init__(self, kernel, pid, dies_at=None, delay_after_stop=None, stop_signals=(15,), kids=()):
+        self.k = kernel
+        self.pid = pid
+        self.wid = 1
+        self.stopping = False
+        self.dies_at = dies_at
+        self.delay_after_stop = delay_after_stop
+        self.stop_signals = stop_signals
+        self.kids = list(kids)
+        self.closed = False
+        self.started = 0
+        self.polls = []
+        self.reaped = False
+
+    def _alive(self):
+        return self.dies_at is None or self.k.now < self.dies_at
+
+    def is_alive(self):
+        a = self._alive()
+        self.polls.append((self.k.now, a))
+        if not a:
+            self.reaped = True      # poll() reaps the zombie
+        return a
+
+    def children(self, recursive=False):
+        from psutil import NoSuchProcess
+        if not self._alive() and self.reaped:
+            raise NoSuchProcess(self.pid)
+        return list(self.kids)
+
+    def send_signal(self, sig):
+        from psutil import NoSuchProcess
+        if not self._alive() and self.reaped:
+            raise NoSuchProcess(self.pid)
+        # a dead but not yet reaped child (zombie) still accepts kill(2)
+        self.k.signals.append((self.pid, int(sig), self.k.now, 'process' if self._alive() else 'zombie'))
+        if int(sig) == 9:
+            self.dies_at = self.k.now
+        elif int(sig) in self.stop_signals and self.delay_after_stop is not None:
+            t = self.k.now + self.delay_after_stop
+            self.dies_at = t if self.dies_at is None else min(self.dies_at, t)
+
+    def send_signal_child(self, pid, sig):
+        self.k.signals.append((pid, int(sig), self.k.now, 'child'))
+
+    def stop(self):
+        self.closed = True
+
+
+def real_watcher(**kw):
+    from circus.watcher import Watcher
+    w = Watcher('replay', 'sleep 1', **kw)
+    return w
+
+
+def run_coroutine(fn):
+    from tornado import ioloop
+    loop = ioloop.IOLoop.current()
+    return loop.run_sync(fn)
+
+
+@register('circus.watcher:Watcher.kill_process')
+class KillProcess(object):
+    def from_model(self, m):
+        return []
+
+    def enumerate(self):
+        for g in (0.3, 0.0, 0.25, 1.0):
+            for beh in ('obeys-fast', 'ignores', 'dies-late', 'dies-at-boundary', 'obeys-slow', 'dead-already'):
+                for stop_children in (False, True):
+                    for override in (None, 2):
+                        yield {'g': g, 'behaviour': beh, 'stop_children': stop_children,
+                               'override_signal': override, 'g_override': None}
+
+    def run(self, inp):
+        import circus.watcher as W
+        from tornado import concurrent
+        k = FakeKernel()
+        g = inp['g']
+        beh = inp['behaviour']
+        sig = inp['override_signal']
+        stop_sig = sig if sig is not None else 15
+        kw = {}
+        if beh == 'obeys-fast':
+            kw = {'delay_after_stop': 0.05}
+        elif beh == 'obeys-slow':
+            kw = {'delay_after_stop': g + 5}
+        elif beh == 'dies-late':
+            kw = {'dies_at': max(g - 0.05, 0.0)}       # exits by itself during the last polling step
+        elif beh == 'dies-at-boundary':
+            kw = {'dies_at': g}
+        elif beh == 'dead-already':
+            kw = {'dies_at': 0.0}
+        p = FakeProcess(k, 4242, stop_signals=(stop_sig,), kids=(77,), **kw)
+        w = real_watcher(graceful_timeout=g, stop_children=inp['stop_children'])
+        w.processes = {p.pid: p}
+
+        def vsleep(d):
+            k.now += d
+            f = concurrent.Future()
+            f.set_result(None)
+            return f
+        saved = W.tornado_sleep
+        W.tornado_sleep = vsleep
+        obs = {}
+        try:
+            obs['result'] = run_coroutine(lambda: w.kill_process(p, stop_signal=sig,
+                                                                 graceful_timeout=inp['g_override']))
+        except Exception as e:
+            obs['raised'] = type(e).__name__
+        finally:
+            W.tornado_sleep = saved
+        obs['signals'] = [list(s) for s in k.signals]
+        obs['polls'] = p.polls
+        obs['end'] = k.now
+        obs['dies_at'] = p.dies_at
+        obs['stopping'] = p.stopping
+        obs['closed'] = p.closed
+        return obs
+
+    def check(self, inp, obs):
+        bad = set()
+        if 'raised' in obs:
+            return set(['noescape'])
+        own = [s for s in obs['signals'] if s[0] == 4242]
+        g = inp['g'] if inp['g_override'] is None else inp['g_override']
+        want = inp['override_signal'] if inp['override_signal'] is not None else 15
+        if not obs['result']:
+            if own:
+                bad.add('post[1]')
+            return bad
+        if len(own) < 1:
+            bad.add('post[2]')
+            return bad
+        if own[0][1] != want:
+            bad.add('post[3]')
+        kids = [s for s in obs['signals'] if s[0] == 77 and s[1] == want]
+        if inp['stop_children'] and not kids:
+            bad.add('post[5]')
+        if len(own) > 2:
+            bad.add('post[6]')
+        if len(own) == 2:
+            if own[1][1] != 9:
+                bad.add('post[7]')
+            if own[1][2] < own[0][2] + g - 1e-9:
+                bad.add('post[8]')
+            if not (own[1][2] - own[0][2] < g + 0.1 + 1e-9):
+                bad.add('post[9]')
+            # SIGKILL only to a worker that was still alive when the timeout had elapsed
+            if own[1][3] == 'zombie':
+                bad.add('post[11]')
+        if len(own) == 1:
+            # no SIGKILL: the worker must have been seen dead
+            if not any(not a for t, a in obs['polls']):
+                bad.add('post[10]')
+        if obs['stopping'] or not obs['closed']:
+            bad.add('post[12]')
+        return bad
